@@ -837,6 +837,66 @@ def stage_descendant_reader(ctx, stats):
         common.report(ctx, 'c08/pty/descendant-reader', 'pty, the started process has exited and its child still reads the terminal: ' + problems[0], dict(stage='stage_descendant_reader'))
 
 
+def stage_send_faults(ctx, stats):
+    """C11 when the descriptor does not take a request as offered: a non-blocking terminal whose input queue is full for a moment (the write
+    fails with EAGAIN - expect(async_=True) leaves the descriptor non-blocking) or takes only the first bytes.  Whatever send() then does -
+    report the error, return the short count - the caller asked for each piece once, and the send logs hold it once, in order."""
+    import errno
+    rng = ctx.rng
+    real_write = os.write
+    state = dict(fd=None, plan=[], hits=0)
+
+    def faulty(fd, data):
+        if fd == state['fd'] and state['plan']:
+            k = state['plan'].pop(0)
+            if k == 'eagain':
+                state['hits'] += 1
+                raise BlockingIOError(errno.EAGAIN, 'Resource temporarily unavailable')
+            if k == 'short' and len(data) > 1:
+                state['hits'] += 1
+                return real_write(fd, data[:max(1, len(data) // 2)])
+        return real_write(fd, data)
+
+    n = 0
+    for tr in ('pty', 'fd'):
+        for enc in (None, 'utf-8'):
+            for plan_kind in ('eagain', 'short', 'mixed'):
+                ses = S.Session(tr, encoding=enc, logs=('logfile', 'logfile_send'))
+                asked, outcomes = [], []
+                try:
+                    state['fd'] = ses.p.child_fd
+                    os.write = faulty
+                    for j in range(5):
+                        text = rng.choice(TEXTS) + '%d\n' % j
+                        v = text if enc else text.encode('utf-8')
+                        form = rng.choice(['send', 'sendline', 'write'])
+                        state['plan'] = {'eagain': ['eagain'], 'short': ['short'], 'mixed': [rng.choice(['eagain', 'short', 'ok'])]}[plan_kind] if j in (1, 3) else []
+                        want = v + ((os.linesep if enc else os.linesep.encode()) if form == 'sendline' else (v[:0]))
+                        asked.append(want)
+                        try:
+                            getattr(ses.p, form)(v)
+                            outcomes.append('ret')
+                        except OSError as e:
+                            outcomes.append(type(e).__name__)
+                        state['plan'] = []
+                finally:
+                    os.write = real_write
+                    logs = {k: [e[1] for e in r.ev if e[0] == 'w'] for k, r in ses.logs.items()}
+                    ses.close()
+                n += 1
+                for name in ('logfile', 'logfile_send'):
+                    if logs[name] != asked:
+                        common.report(ctx, 'c11/%s/send-fault-%s' % (tr, plan_kind),
+                                      '%s (%s mode), %s asked for once each with a descriptor that %s on requests 1 and 3 (outcomes %s): %s received %r' % (
+                                          tr, 'unicode' if enc else 'bytes', [repr(a)[:24] for a in asked],
+                                          {'eagain': 'fails with EAGAIN', 'short': 'takes half', 'mixed': 'fails with EAGAIN or takes half'}[plan_kind], outcomes, name,
+                                          [repr(x)[:24] for x in logs[name]]),
+                                      dict(stage='stage_send_faults', transport=tr, encoding=enc, plan=plan_kind))
+                        break
+    stats['send_fault_sessions'] = n
+    stats['send_faults_injected'] = state['hits']
+
+
 def stage_log_edges(ctx, stats):
     """C11 at the edges of the transports:
     (a) small reads of output that a child left behind when it exited (popen, pty, fd): everything delivered is in logfile_read;
@@ -943,6 +1003,7 @@ def run(ctx):
         stage_descendant_reader(ctx, stats)
     if prop == 'C11':
         stage_log_edges(ctx, stats)
+        stage_send_faults(ctx, stats)
     oracle = ORACLES[prop]
     for i, c in enumerate(cases):
         res = run_case(c)
